@@ -11,7 +11,8 @@ ENTRIES = [(HYP, q) for q in (
     "Point.origin_to", "TangentVector.origin_to", "TangentVector.isometry_to",
     "TangentVector.point_along", "TangentVector.angle",
     "TangentVector.normalized", "Point.unit_tangent_towards",
-    "Polygon.regular_polygon", "regular_polygon_radius",
+    "Polygon.regular_polygon", "Polygon.regular_surface_polygon",
+    "genus_g_surface_radius", "regular_polygon_radius",
     "polygon_interior_angle", "TangentVector.get_base_tangent",
     "timelike_to", "spacelike_to")]
 
